@@ -620,6 +620,7 @@ def c01(ctx):
     ctx.assumptions.append("totality is PROVED only for the modelled cores (directive parser, pipeline arithmetic, regex validator, CF analyzer unwraps, traverse flag machine); for the ~110 rule bodies and swc it is an exploration (search for a failing input), stated as such")
     ctx.proof_stage("C01", [])
     ctx.proof_stage("C01_regex", [])
+    ctx.proof_stage("C01_cf", ["CF/Coverage.vo"])
     rng = random.Random(ctx.seed + 1)
     reg = lib.vh_registry()
     codes = [r["code"] for r in reg["rules"]]
@@ -671,6 +672,38 @@ def c01(ctx):
             if "ts" in flags8 and m8 in ("js", "jsx"):
                 continue
             cases.append({"src": src8, "media": m8, "rules": "all"})
+    # (10) byte order marks (one, several, in the middle) and the declaration forms that have NO body (overload signatures, ambient and abstract
+    #      members, interfaces): every function-like form, generator / async / accessor variants; always part of the debug run too
+    must_debug = []
+    for nb in (1, 2, 3, 5):
+        for body in ("debugger;", "", "// deno-lint-ignore-file\ndebugger;", "#!/usr/bin/env deno\nx;", "let a = 1;\r\n\ufeffb;"):
+            must_debug.append({"src": "\ufeff" * nb + body, "media": rng.choice(ALL_MEDIA), "rules": "all"})
+    SIG = ["function%s f(a: number): %s;\nfunction%s f(a: any): any { %s }", "declare function%s g(a: number): %s;", "export declare function%s g(a: number): %s;",
+           "abstract class AC { abstract %sm(a: number): %s; }", "class OC { %sm(a: number): %s; %sm(a: any): any { %s } }", "declare class DC { %sm(a: number): %s; }",
+           "interface I { %sm(a: number): %s; }", "declare namespace NS { function%s h(): %s; }", "declare module 'dm' { export function%s h(): %s; }",
+           "class PC { private %sm(): %s; private %sm(a?: any): any { %s } }", "class SC { static %sm(): %s; static %sm(a?: any): any { %s } }",
+           "export default function%s (a: number): %s;\nexport default function%s (a: any): any { %s }",
+           "declare global { function%s gg(): %s; }\nexport {};", "abstract class AG { abstract get g(): number; abstract set s(v: number); abstract accessor z: number; }",
+           "class CO { constructor(a: number); constructor(a: any) {} }", "declare class DK { constructor(a: number); get g(): number; set s(v: number); static { } }",
+           "function outer() { function%s inner(): %s;\nfunction%s inner(): any { %s } }", "function* og() { yield 1; function%s inner(): %s;\nfunction%s inner(): any { %s } }"]
+    for tpl in SIG:
+        for star, ret, body in (("", "void", "g();"), ("*", "Generator<number>", "yield 1;"), ("*", "Generator<number>", "g();")):
+            n = tpl.count("%s")
+            for method_like in (False, True):
+                st = star if (("function%s" in tpl) != method_like) else star
+                if n == 0:
+                    src = tpl
+                elif n == 2:
+                    src = tpl % (st, ret)
+                elif n == 4:
+                    src = tpl % (st, ret, st, body)
+                else:
+                    continue
+                for pre in ("", "async " if "function%s" not in tpl and star == "" else ""):
+                    for m in ("ts", "tsx", "mts", "dts"):
+                        must_debug.append({"src": src, "media": m, "rules": "all"})
+                break
+    cases += must_debug
     # (7) regular-expression heavy files (long digit runs, \u{...} with many hex digits, deep groups), all rules
     import regex as RX
     pats = RX.gen_structured(rng, 1500 if quick else 30000) + RX.gen_deep(rng, 100 if quick else 1500)
@@ -721,7 +754,7 @@ def c01(ctx):
     res = lib.run_vh("lint", cases, per_case_timeout=3.0)
     trel = time.time() - t
     # debug build (overflow checks, debug assertions) on a sample
-    dbg_cases = rng.sample(cases, 2500 if quick else 30000)
+    dbg_cases = rng.sample(cases, 2500 if quick else 30000) + must_debug
     t = time.time()
     dres = lib.run_vh("lint", dbg_cases, profile="debug", per_case_timeout=10.0)
     tdbg = time.time() - t
